@@ -37,9 +37,9 @@ func zeroCategory(t reflect.Type) string {
 	switch t.Kind() {
 	case reflect.Struct:
 		return "struct"
-	case reflect.Chan, reflect.Map, reflect.Func, reflect.Interface:
+	case reflect.Chan, reflect.Map, reflect.Func, reflect.Interface, reflect.Slice:
 		return "nillable"
-	case reflect.Slice, reflect.Ptr:
+	case reflect.Ptr:
 		return "nillable-conditional" // only with skipCopySameType and identical types (documented)
 	case reflect.Array:
 		return "other"
